@@ -839,6 +839,9 @@ fn run_request(s: &mut Session, cx: &Ctx, req: &Req, r: &mut Rng) {
                                 bad = Some(format!("(new {new}, old {old}): original {a:?} subset {b:?}"));
                             }
                         }
+                        if renumbered && bad.is_some() && cx.label.starts_with("corpus:") {
+                            s.count(&format!("vmtx:renumbered-mismatch:{}", cx.label));
+                        }
                         if renumbered && bad.is_some() && s.dist.get("vmtx:renumbered-mismatch(known finding)").copied().unwrap_or(0) >= 12 {
                             // the known finding repeats for every renumbering request: record a dozen, count the rest
                             s.oracle_checks += 1;
@@ -1053,7 +1056,8 @@ pub fn run(cfg: &Config, s: &mut Session, r: &mut Rng) {
     pstring_unit(s, r, if th { 4000 } else { 300 });
 
     // (A) synthetic glyf fonts with hand-built post tables (+ exact maxp, sometimes VORG / vhea / vmtx)
-    let nfonts = if th { 3000u64 } else { 160 };
+    // debugging aid: C17_POST_CORPUS_ONLY=1 skips the synthetic families
+    let nfonts = if std::env::var("C17_POST_CORPUS_ONLY").is_ok() { 0 } else if th { 3000u64 } else { 160 };
     for id in 0..nfonts {
         let n = match id % 10 {
             0 => 259 + r.below(60) as usize, // more glyphs than standard names
